@@ -57,7 +57,7 @@ func c34Batch(op c34Op) arrow.RecordBatch {
 }
 
 func genC34(t *rapid.T) c34Case {
-	wantFill := rapid.IntRange(0, 11).Draw(t, "fill?") == 0
+	wantFill := rapid.IntRange(0, 15).Draw(t, "fill?") == 9
 	var data int
 	switch cls := rapid.IntRange(0, 9).Draw(t, "sizeclass"); {
 	case wantFill:
@@ -80,6 +80,10 @@ func genC34(t *rapid.T) c34Case {
 	}
 	for i := 0; i < nops; i++ {
 		if i == fillAt {
+			if rapid.IntRange(0, 3).Draw(t, "fillfresh") != 3 {
+				m.reset()
+				c.Ops = append(c.Ops, c34Op{K: "reset"})
+			}
 			op := c34Op{K: "fill", Size: int64([]int{1, 1, 2, 16}[rapid.IntRange(0, 3).Draw(t, "fillsz")]), N: maxEntries + rapid.IntRange(0, 3).Draw(t, "fillextra")}
 			if rapid.IntRange(0, 3).Draw(t, "fillshort") == 0 {
 				op.N = rapid.IntRange(1, maxEntries).Draw(t, "filln")
@@ -94,7 +98,7 @@ func genC34(t *rapid.T) c34Case {
 		}
 		k := rapid.IntRange(0, 99).Draw(t, "opkind")
 		switch {
-		case k < 52 || len(m.t) == 0 && k < 80:
+		case k < 44 || len(m.t) == 0 && k < 84:
 			op := c34Op{K: "alloc"}
 			var pos []gap
 			for _, g := range m.gaps() {
@@ -105,26 +109,30 @@ func genC34(t *rapid.T) c34Case {
 			choice := rapid.IntRange(0, 19).Draw(t, "allockind")
 			pick := func() gap { return pos[rapid.IntRange(0, len(pos)-1).Draw(t, "gap")] }
 			switch {
-			case choice == 0:
+			case choice == 19:
 				op.Size = []int64{0, -1, math.MinInt64, -65536}[rapid.IntRange(0, 3).Draw(t, "nonpos")]
 				op.Why = "nonpositive"
-			case choice == 1:
+			case choice == 18:
 				op.Size, op.Why = 1, "one"
-			case choice <= 5 && len(pos) > 0:
+			case choice >= 6 && choice <= 9 && len(pos) > 0:
 				op.Size, op.Why = int64(pick().size), "gap-exact"
-			case choice <= 7 && len(pos) > 0:
+			case choice >= 10 && choice <= 11 && len(pos) > 0:
 				op.Size, op.Why = int64(pick().size)+1, "gap+1"
-			case choice <= 9 && len(pos) > 0:
+			case choice >= 12 && choice <= 13 && len(pos) > 0:
 				op.Size, op.Why = int64(pick().size)-1, "gap-1"
 				if op.Size <= 0 {
 					op.Size = 1
 				}
-			case choice <= 14 && len(pos) > 0:
+			case choice <= 5 && len(pos) > 0:
 				g := pick()
-				op.Size, op.Why = int64(rapid.Uint64Range(1, g.size).Draw(t, "within")), "within-gap"
-			case choice == 15:
+				hi := g.size
+				if hi > 4096 && rapid.Bool().Draw(t, "modest") {
+					hi = 4096
+				}
+				op.Size, op.Why = int64(rapid.Uint64Range(1, hi).Draw(t, "within")), "within-gap"
+			case choice == 14:
 				op.Size, op.Why = int64(m.freeBytes())+1, "free+1"
-			case choice == 16:
+			case choice == 15:
 				op.Size = []int64{math.MaxInt64, 1 << 62, int64(hdrSize + data), int64(data) + 1, 1 << 32}[rapid.IntRange(0, 4).Draw(t, "huge")]
 				op.Why = "huge"
 			default:
@@ -132,7 +140,7 @@ func genC34(t *rapid.T) c34Case {
 			}
 			m.alloc(op.Size)
 			c.Ops = append(c.Ops, op)
-		case k < 82:
+		case k < 84:
 			op := c34Op{K: "free"}
 			choice := rapid.IntRange(0, 9).Draw(t, "freekind")
 			if len(m.t) == 0 && choice < 7 {
@@ -156,7 +164,7 @@ func genC34(t *rapid.T) c34Case {
 			}
 			m.free(op.Off)
 			c.Ops = append(c.Ops, op)
-		case k < 94:
+		case k < 96:
 			op := c34Op{K: "write", Rows: rapid.IntRange(1, 4).Draw(t, "wrows"), Dict: rapid.IntRange(0, 3).Draw(t, "wdict") == 0}
 			if rapid.Bool().Draw(t, "wpad?") {
 				op.Pad = rapid.IntRange(1, 3000).Draw(t, "wpad")
